@@ -349,6 +349,14 @@ def run_history(kind, nholes, d0, p0, ops, obs_at=None):
         if i == len(ops) - 1 or i % 3 == 0:
             for f in with_others(s):
                 fails.append((i,) + f)
+        # `properties` by its definition (a fresh object runs the same code, so a consistent slip in the getter is
+        # invisible to the differential): the user properties plus the two time keys, as they are now
+        want_p = dict(s._properties)
+        if s.dt is not None:
+            want_p.update({'datetime_start': s.dt.start, 'datetime_end': s.dt.end})
+        got_p = call(lambda: s.properties)
+        if got_p[0] != 'Ok' or got_p[1] != want_p or list(got_p[1]) != list(want_p):
+            fails.append((i, 'obs_as_fresh', f'properties after {o}: {str(got_p[1:])[:120]} but _properties + time bounds give {str(want_p)[:120]}'))
         of, os_ = observe_all(fresh), observe_all(s)
         for r in READS:
             if of[r] != os_[r]:
